@@ -317,7 +317,10 @@ class Parser:
     #
     def expand_macro(self, buf, tok, math):
         buf.next()
-        buf.skip_space()    # for macros without arguments, even if known
+        # for macros without arguments, even if known
+        # (a language token, e.g. at the end of \foreignlanguage{}{...},
+        # ends the space following the macro name)
+        buf.skip_space(stop_lang=True)
         if tok.txt not in self.the_macros:
             if not (math or tok.txt in self.unknowns):
                 self.unknowns.append(tok.txt)
@@ -332,10 +335,11 @@ class Parser:
         arguments_extr = []
         delimiters = []
         pos = start
+        langs = []      # language tokens skipped while looking for arguments
         for n, code in enumerate(mac.args):
             arg_extr = arg = []
             delim = False
-            tok = buf.skip_space()
+            tok = buf.skip_space(langs)
             last_pos = pos
             if tok:
                 pos = tok.pos
@@ -380,8 +384,9 @@ class Parser:
             self.extracted.append(self.expand_sequence(scanner.Buffer(toks)))
         out = [defs.ActionToken(start)]
         if callable(mac.repl):
-            return out + mac.repl(self, buf, mac, arguments, delimiters, start)
-        return out + self.generate_replacements(arguments, mac.repl, start)
+            return (out + mac.repl(self, buf, mac, arguments, delimiters, start)
+                        + langs)
+        return out + self.generate_replacements(arguments, mac.repl, start) + langs
 
     def generate_replacements(self, arguments, repls, start):
         out = []
@@ -613,8 +618,8 @@ class Parser:
         start = tok.pos
         buf.next()
         out = self.expand_arguments(buf, self.item_macro, start)
-        if len(out) == 1:
-            # only ActionToken: no [...]
+        if all(type(t) in (defs.ActionToken, defs.LanguageToken) for t in out):
+            # only ActionToken (and skipped language tokens): no [...]
             lab = next(self.item_lab_stack[-1][0])
             return out + [Space(start), defs.TextToken(start, lab,
                                             pos_fix=True), Space(start)]
